@@ -119,6 +119,16 @@ func (f *forwarder) down() {
 	f.cut()
 }
 
+// refuse closes the listener (no new connections) and leaves the existing connections alone.
+func (f *forwarder) refuse() {
+	f.mu.Lock()
+	if f.lis != nil {
+		f.lis.Close()
+		f.lis = nil
+	}
+	f.mu.Unlock()
+}
+
 func (f *forwarder) up() error {
 	f.mu.Lock()
 	defer f.mu.Unlock()
